@@ -65,7 +65,9 @@ class Ctx:
         self._vh = {}
         self._spec = None
         self.findings = load_known_findings()
-        os.makedirs(os.path.join(VERIF, "evidence", "replays"), exist_ok=True)
+        # evidence goes to /verif/evidence unless a dev run (bin/trymut) redirects it
+        self.evdir = os.environ.get("VERIF_EVIDENCE_DIR") or os.path.join(VERIF, "evidence")
+        os.makedirs(os.path.join(self.evdir, "replays"), exist_ok=True)
 
     # ------------------------------------------------------------------ utils
     def log(self, *a):
@@ -224,7 +226,7 @@ class Ctx:
         rc = 0
         vio_paths = []
         for i, v in enumerate(self.violations[:20]):
-            p = os.path.join(VERIF, "evidence", "replays", "%s-%d-%d.json" % (self.pid, self.seed, i))
+            p = os.path.join(self.evdir, "replays", "%s-%d-%d.json" % (self.pid, self.seed, i))
             with open(p, "w") as fo:
                 json.dump(dict(property=self.pid, sig=v["sig"], desc=v["desc"], replay=v["replay"]), fo, indent=1, ensure_ascii=False)
             vio_paths.append(p)
@@ -247,7 +249,7 @@ class Ctx:
                   level=level, coverage=coverage, assumptions=(assumptions or []) + self.assumptions,
                   wall_s=round(wall, 1), violations=len(self.violations))
         if not self.replay:
-            with open(os.path.join(VERIF, "evidence", self.pid + ".json"), "w") as fo:
+            with open(os.path.join(self.evdir, self.pid + ".json"), "w") as fo:
                 json.dump(ev, fo, indent=1, ensure_ascii=False)
         self.log("done: %d violations, %d known-finding hits, %.1fs" % (len(self.violations), len(self.known), wall))
         return rc
